@@ -230,6 +230,12 @@ impl Screen {
 
         (self.lines, self.columns) = (lines, columns);
         self.set_margins(None, None);
+
+        // The cursor was restored against the old size and the line deletion
+        // marked rows of the old screen: bring both inside the new bounds.
+        self.cursor.x = self.cursor.x.min(self.columns);
+        self.cursor.y = self.cursor.y.min(self.lines - 1);
+        self.dirty.retain(|y| *y < lines);
     }
 
     // Ensure the cursor is within horizontal screen bounds."""
